@@ -1984,6 +1984,34 @@ def rx_frame(chk, program):
                       found=[f"{m}({ast.unparse(c.args[0]) if c.args else ''})" for _, c, m in reads],
                       detail='' if ok else 'read(n) may return fewer bytes when a packet is split across TCP segments: the partial packet is decoded and every later 13-byte window is shifted')
         elif fronts & {'decode_actisense_string', 'decode_yacht_devices_string'}:
+            # the stream reader's line limit (default 64 KiB) must hold the longest line: an assembled 223-byte fast packet in hex is 446
+            # characters plus time stamp, header and CR LF -- an Actisense line of about 475 characters
+            LONGEST_LINE = 446 + 29
+            for cname in classes:
+                for qn, fdef in program.mod('ioclient').defs.items():
+                    if not qn.endswith('._connect_impl'):
+                        continue
+                    for c_ in ast.walk(fdef):
+                        if isinstance(c_, ast.Call) and call_name(c_).endswith('open_connection'):
+                            lim = next((k.value for k in c_.keywords if k.arg == 'limit'), None)
+                            if lim is None:
+                                continue
+                            owner = qn.rsplit('.', 1)[0]
+                            if owner not in classes and owner != q.rsplit('.', 1)[0]:
+                                continue
+                            v_ = const_int_in(program, 'ioclient', lim)
+                            if v_ is None and isinstance(lim, ast.Attribute) and isinstance(lim.value, ast.Name) and lim.value.id == 'self':
+                                # a class-level constant read through self
+                                for cn_, cd_ in program.mod('ioclient').classes.items():
+                                    for st_ in cd_.body:
+                                        if isinstance(st_, ast.Assign) and any(isinstance(t_, ast.Name) and t_.id == lim.attr for t_ in st_.targets):
+                                            v_ = _const_int(st_.value) if v_ is None else v_
+                            if v_ is None:
+                                chk.unknown('RX-FRAME', f"{q}::line-limit", f"open_connection(limit={ast.unparse(lim)[:30]}): not a constant this analysis can follow", IO, c_.lineno)
+                            else:
+                                chk.check(v_ >= LONGEST_LINE, 'RX-FRAME', f"{q}::line-limit", file=IO, line=c_.lineno, func=qn, expected=f"a line limit of at least {LONGEST_LINE} characters (or the default 64 KiB)",
+                                          found=v_, detail='' if v_ >= LONGEST_LINE else 'readline() raises for a longer line: the lines of long fast-packet messages (product / configuration information) are lost or end the connection')
+                break
             ok = len(reads) == 1 and reads[0][2] in ('readline', 'readuntil')
             chk.check(ok, 'RX-FRAME', f"{q}::line-framing", file=IO, line=reads[0][1].lineno if reads else g.fn.lineno, func=q,
                       expected='one line read per packet (CR LF terminated text formats)', found=kinds)
@@ -2080,6 +2108,54 @@ def close_order(chk, program, rule='CLOSE-DOES'):
               expected='self.writer.close() happens before the first await that can follow a task cancellation',
               found='ok' if not bad else [f"await at line {g.nodes[a].line}: {stmt_key(g.nodes[a].ast)}" for a in bad[:2]],
               detail='' if not bad else 'close() called from the receive callback cancels its own task; the CancelledError raised at that await skips the rest of close(), so the link would stay open')
+
+def connect_shuts_late_link(chk, program, rule='CLOSE-DOES'):
+    """close() can run while connect() waits for the transport: the link that _connect_impl() then opens must be shut by connect() itself.  In the
+    graph of connect() (helpers inlined), from the `_connect_impl()` call onwards, in the world "the state is CLOSED and a writer exists", every path
+    to an exit passes `self.writer.close()` (the attribute as it is after the connect, or a local bound to it after the connect).  A path that
+    only branches on something of the client this analysis does not know is no witness."""
+    from .cfg import reach_with_flags
+    q = f"{BASE}.connect"
+    g = cfg_of(program, q)
+    sites = [nid for nid, c in nodes_calling(g, lambda c: is_self_call(c, '_connect_impl'))]
+    if len(sites) != 1:
+        chk.unknown(rule, 'connect::shuts-a-link-opened-while-closing', f"{len(sites)} call sites of _connect_impl in connect()", IO, g.fn.lineno)
+        return
+    N = sites[0]
+    after = g.reach(N)
+    # locals bound to self.writer only after the connect (dominated by it: a binding made before it, even in a retry loop, may hold the old link)
+    fresh = {n.ast.targets[0].id for n in g.nodes if n.id in after and n.id != N and g.dominates(N, n.id) and n.kind == 'stmt' and isinstance(n.ast, ast.Assign) and len(n.ast.targets) == 1
+             and isinstance(n.ast.targets[0], ast.Name) and is_self_attr(n.ast.value, ('writer',))}
+    stale = {n.ast.targets[0].id for n in g.nodes if n.kind == 'stmt' and isinstance(n.ast, ast.Assign) and len(n.ast.targets) == 1 and isinstance(n.ast.targets[0], ast.Name)
+             and is_self_attr(n.ast.value, ('writer',)) and not (n.id in after and n.id != N and g.dominates(N, n.id))}
+    fresh -= stale
+    def is_w(e):
+        return is_self_attr(e, ('writer',)) or (isinstance(e, ast.Name) and e.id in fresh)
+    closers = {nid for nid, c in nodes_calling(g, lambda c: isinstance(c.func, ast.Attribute) and c.func.attr == 'close' and is_w(c.func.value)) if nid in after}
+    def atom(e):
+        r = eval_under_closed(e, 'CLOSED')
+        if r is not None:
+            return r
+        if is_w(e):
+            return True
+        if isinstance(e, ast.Compare) and len(e.ops) == 1 and is_w(e.left) and isinstance(e.comparators[0], ast.Constant) and e.comparators[0].value is None:
+            return isinstance(e.ops[0], (ast.IsNot, ast.NotEq))
+        return NotImplemented
+    starts = [v for v, l in g.succ[N] if l != 'exc']
+    may, sure = set(), set()
+    for s_ in starts:
+        if s_ in closers:
+            continue
+        a_, b_ = reach_with_flags(g, s_, closers, atom, taint=may_encode_state)
+        may |= a_; sure |= b_
+    exits = {g.exit.id}
+    if exits & may and not exits & sure:
+        chk.unknown(rule, 'connect::shuts-a-link-opened-while-closing', 'after _connect_impl() connect() branches on something of the client that may stand for the connection state: not decided', IO, g.nodes[N].line)
+        return
+    chk.check(not (exits & sure), rule, 'connect::shuts-a-link-opened-while-closing', file=IO, line=g.nodes[N].line, func='connect',
+              expected='when close() ran while the transport was being opened, connect() shuts the link it has just opened (self.writer.close()) before it returns',
+              found='ok' if not (exits & sure) else 'a path from _connect_impl() to the end of connect() in state CLOSED does not close self.writer',
+              detail='' if not (exits & sure) else 'the state stays CLOSED but the connection opened during close() is never shut')
 
 def lock_owner(chk, program, rule='SEND-ATOMIC'):
     """an explicitly released lock is released only by the invocation that acquired it: every path to `<lock>.release()` passes the matching
